@@ -229,34 +229,66 @@ def check(run):
            "in free text only strings IPv4Address accepts (canonical dotted quads) are parsed, so the node's value equals the text it covers",
            f"needs is_ip({arg}); reaching condition {G.show(pc)}", mech="reaching condition => validator atom")
     par = getattr(calls[0], "_parent", None)
-    shift_ok = isinstance(par, ast.Attribute) and par.attr == "shift" and isinstance(par._parent, ast.Call) and norm_src(par._parent.args[0]).endswith(".start()")
+    shift_ok = False
+    if isinstance(par, ast.Attribute) and par.attr == "shift" and isinstance(par._parent, ast.Call) and par._parent.args:
+        env_u = common.block_env(fips.body, common.enclosing_stmt(calls[0]), unpack=True) or {}
+        sh_ = norm_src(G.Atomizer(subst=env_u).inline(par._parent.args[0]))
+        shift_ok = sh_.endswith((".start()", ".start(0)", ".span()[0]", ".span(0)[0]"))
     run.ob("R1-validator-dominance", "decoders.network.find_ips/shifted-to-match", shift_ok, w(calls[0]), "the parsed node is shifted to the match position", "", mech="call-shape match")
     run.floor("R1-validator-dominance", 12)
 
     # ------------------------------------------------------------------ R2 validator bodies
     isd = validators["is_domain"]
     D_ = isd.params[0]
-    body = [s for s in isd.body if not (isinstance(s, ast.Expr) and isinstance(s.value, ast.Constant))]
     okd = False
-    det = "is_domain body shape not recognised"
-    # parts = domain.rsplit(b".", 1); if len(parts) != 2: return False; name, tld = parts; return bool(name and tld.upper() in TABLE)
+    det = "is_domain: no recognised split of the text at its last dot (rsplit(b'.', 1) or rpartition(b'.'))"
+    # The decision of is_domain as a formula: OR over its return statements of (reaching condition AND returned value), with
+    # temporaries and tuple unpackings inlined.  Two spellings of "split at the last dot" are understood and mapped to the same
+    # atoms HASDOT / HEAD / TAIL; control flow (guards, merged or split ifs, early returns) is free.
     rets = [n for n in own_nodes(isd.node) if isinstance(n, ast.Return)]
-    if len(body) == 4 and isinstance(body[0], ast.Assign) and norm_src(body[0].value) in (f"{D_}.rsplit(b'.', 1)", f"{D_}.rsplit(b'.', maxsplit=1)"):
-        parts = body[0].targets[0].id
-        g = body[1]
-        okg = isinstance(g, ast.If) and norm_src(g.test) in (f"len({parts}) != 2", f"len({parts}) < 2") and len(g.body) == 1 and isinstance(g.body[0], ast.Return) and \
-            prog.try_fold(nm, g.body[0].value) is False
-        un = body[2]
-        oku = isinstance(un, ast.Assign) and isinstance(un.targets[0], ast.Tuple) and len(un.targets[0].elts) == 2 and common.is_name(un.value, parts)
-        if okg and oku:
-            name, tld = (x.id for x in un.targets[0].elts)
-            az = G.Atomizer(rename={name: "NAME", tld: "TLD"})
-            got = az.formula(body[3].value)
-            spec = G.Atomizer().formula(common.spec_expr("NAME and TLD.upper() in TOP_LEVEL_DOMAINS"))
-            okd, cm = G.equivalent(got, spec)
-            det = f"returns {G.show(got)}"
+    fs = []
+    idiom = None
+    for r in rets:
+        env_ = common.block_env(isd.body, r, unpack=True) or {}
+        probe = G.Atomizer(subst=env_, rename={D_: "D"})
+        txt = norm_src(probe.inline(r.value)) if r.value is not None else ""
+        pc_txt = G.show(G.reach(isd.body, r, probe) or G.T)
+        for t_ in (txt, pc_txt):
+            if "D.rsplit(" in t_:
+                idiom = idiom or "rsplit"
+            if "D.rpartition(" in t_:
+                idiom = idiom or "rpartition"
+    rew = []
+    assuming = G.T
+    if idiom == "rsplit":
+        for sp in ("D.rsplit(b'.', 1)", "D.rsplit(b'.', maxsplit=1)", "D.rsplit(sep=b'.', maxsplit=1)"):
+            rew += [(sp + "[0]", "HEAD"), (sp + "[1]", "TAIL"), (sp + "[-1]", "TAIL"), ("len(" + sp + ")", "NPARTS")]
+    elif idiom == "rpartition":
+        sp = "D.rpartition(b'.')"
+        rew += [(sp + "[0]", "HEAD"), (sp + "[2]", "TAIL"), (sp + "[-1]", "TAIL"), ("truthy:" + sp + "[1]", "truthy:HASDOT"), (sp + "[1]", "HASDOT")]
+    if idiom:
+        is_int = lambda e: "len(" in norm_src(e)    # noqa: E731
+        for r in rets:
+            env_ = common.block_env(isd.body, r, unpack=True) or {}
+            az = G.Atomizer(subst=env_, rename={D_: "D"}, rewrite=rew, is_int=is_int)
+            pc = G.reach(isd.body, r, az)
+            val = az.formula(r.value) if r.value is not None else G.F
+            fs.append(G.f_and(pc if pc is not None else G.F, val))
+        got = G.f_or(*fs) if fs else G.F
+        saz = G.Atomizer(is_int=lambda e: norm_src(e) == "NPARTS")
+        if idiom == "rsplit":
+            # rsplit(b'.', 1) yields 1 or 2 parts; 2 exactly when there is a dot
+            spec = saz.formula(common.spec_expr("NPARTS == 2 and HEAD and TAIL.upper() in TOP_LEVEL_DOMAINS"))
+            assuming = saz.formula(common.spec_expr("NPARTS >= 1 and NPARTS <= 2"))
+        else:
+            # rpartition: the head is empty when there is no dot
+            spec = saz.formula(common.spec_expr("HASDOT and HEAD and TAIL.upper() in TOP_LEVEL_DOMAINS"))
+            assuming = saz.formula(common.spec_expr("HASDOT or not HEAD"))
+        okd, cm = G.equivalent(got, spec, assuming=assuming)
+        det = f"is_domain returns {G.show(got)}" + (f"; differs from the statement at {G.show_model(cm)}" if cm else "")
     run.ob("R2-validators", "decoders.network.is_domain/formula", okd, w(isd.node),
-           "is_domain <=> the text splits at its last dot into a non-empty name and a TLD whose upper-case form is in the table", det, mech="statement shape + truth table")
+           "is_domain <=> the text splits at its last dot into a non-empty name and a TLD whose upper-case form is in the table", det,
+           mech="return formula (reaching conditions + inlined temporaries) vs the statement, by truth table")
     tm = prog.mod("domains")
     tlds = prog.const(tm, "TOP_LEVEL_DOMAINS")
     bad = sorted(t for t in tlds if not (isinstance(t, bytes) and t and t == t.upper() and all(c in b"ABCDEFGHIJKLMNOPQRSTUVWXYZ0123456789-" for c in t)))
